@@ -956,6 +956,63 @@ fn inline_setter_call(b: &str) -> Option<String> {
     Some(format!("assign ldap.{}={}", field, out))
 }
 
+/// replace whole-identifier occurrences of `from` by `to` (text without white space)
+fn rename_ident(text: &str, from: &str, to: &str) -> String {
+    let mut out = String::new();
+    let mut ident = String::new();
+    for c in text.chars().chain(std::iter::once('\u{0}')) {
+        if c.is_alphanumeric() || c == '_' {
+            ident.push(c);
+        } else {
+            if ident == from { out.push_str(to) } else { out.push_str(&ident) }
+            ident.clear();
+            if c != '\u{0}' { out.push(c) }
+        }
+    }
+    out
+}
+
+/// Bring harmless spelling variants of a delegation body (squeezed text) to the canonical one - the
+/// same normalisation as translate/sync_table.py: other names for the two local aliases, `async {`,
+/// no aliases at all, no async block.
+fn normalise_body(owner: &str, b: &str) -> String {
+    let (rt_path, recv_path, recv) = if owner == "LdapConn" { ("self.rt", "self.ldap", "ldap") } else { ("self.conn.rt", "self.stream", "stream") };
+    let mut b = b.replace("async{", "asyncmove{");
+    let pre = format!("letrt=&mut{};let{}=&mut{};", rt_path, recv, recv_path);
+    // other alias names
+    if b.starts_with("let") && !b.starts_with(&pre) {
+        let k1 = format!("=&mut{};let", rt_path);
+        let k2 = format!("=&mut{};", recv_path);
+        if let Some(i1) = b.find(&k1) {
+            let x = b[3..i1].to_string();
+            let rest = &b[i1 + k1.len()..];
+            if let Some(i2) = rest.find(&k2) {
+                let y = rest[..i2].to_string();
+                let ident = |s: &str| !s.is_empty() && s.chars().all(|c| c.is_alphanumeric() || c == '_');
+                if ident(&x) && ident(&y) && x != y {
+                    // `letX` / `letY` are single tokens in squeezed text: rename those first
+                    let t = b.replacen(&format!("let{}=", x), "let\u{1}=", 1).replacen(&format!("let{}=", y), "let\u{2}=", 1);
+                    let t = rename_ident(&t, &y, "\u{2}");
+                    let t = rename_ident(&t, &x, "rt");
+                    b = t.replace('\u{1}', "rt").replace('\u{2}', recv);
+                }
+            }
+        }
+    }
+    // no aliases
+    let direct = format!("{}.block_on(asyncmove{{{}.", rt_path, recv_path);
+    if b.contains(&direct) && !b.starts_with(&pre) {
+        b = format!("{}{}", pre, b.replace(&direct, &format!("rt.block_on(asyncmove{{{}.", recv)));
+    }
+    // no async block
+    let head = format!("{}rt.block_on({}.", pre, recv);
+    if b.starts_with(&head) && b.ends_with("))") && !b.contains(".await") {
+        let call = &b[head.len()..b.len() - 1];
+        b = format!("{}rt.block_on(asyncmove{{{}.{}.await}})", pre, recv, call);
+    }
+    b
+}
+
 /// `(Owner.fn, expected row text)` for every `pub fn` outside cfg(feature) items
 fn read_sync_rs(src: &str) -> Vec<(String, String)> {
     let code: String = src.lines().map(|l| match l.find("//") { Some(i) => &l[..i], None => l }).collect::<Vec<_>>().join("\n");
@@ -982,7 +1039,7 @@ fn read_sync_rs(src: &str) -> Vec<(String, String)> {
             if c == '{' { depth += 1; }
             if c == '}' { depth -= 1; if depth == 0 { end = body_start + k; break; } }
         }
-        let b = squeeze(&chunk[body_start + 1..end]);
+        let b = normalise_body(owner, &squeeze(&chunk[body_start + 1..end]));
         let row = if b.contains("runtime::Builder::new_") {
             format!(
                 "connect {} {} {}",
